@@ -238,7 +238,8 @@ int main(void) {
 		 *    is still RUNNING (blocked in the second gate) after its last read: sends made now are accepted (rc 0)
 		 *    and sit in the queue behind the batch that contains the stop message.
 		 * 3: (pool of one) messages accepted by the shared virtual thread are still queued when the shutdown starts.
-		 * 4: a sender thread races tp_shutdown() (perturbed between its running test and its queue write). */
+		 * 4: a sender thread races tp_shutdown() (perturbed between its running test and its queue write).
+		 * 5: shutdown while the gated worker's queue is full (filled to EAGAIN by the scenario senders). */
 		unsigned k, mode = shutdown_behind_gate;
 		tpt_p d0 = tp_thread_get(g_tp, gate_dst), dv = tp_thread_get_pvt(g_tp);
 		if (tm_wait_ge(&g_gate_in, 1, 30000)) timeout = 1;
@@ -260,6 +261,12 @@ int main(void) {
 			for (k = 0; k < 40; k++) LATE_SEND(k, (uint32_t)pool, dv);
 			tp_shutdown(g_tp);
 			sem_post(&g_gate_sem);
+		} else if (mode == 5 && !timeout) {
+			/* the scenario senders have filled the gated worker's queue until EAGAIN: the stop message does not fit, the
+			 * worker is stopped directly and must still deliver everything that was accepted (more than one read batch) */
+			tp_shutdown(g_tp);
+			sem_post(&g_gate_sem);
+			tm_wait_ge(&g_cb_count, __atomic_load_n(&g_ok_sends, __ATOMIC_RELAXED), 5000);
 		} else {
 			sem_post(&g_gate_sem);
 		}
